@@ -4,6 +4,8 @@ from __future__ import annotations
 import ast
 from typing import Dict, List, Optional, Set, Tuple
 
+from .. import cfg as cfgmod
+from .. import deps as depsmod
 from ..index import AnalysisError, dotted_name, unparse
 
 EXPLANATION = (
@@ -182,9 +184,33 @@ def _guarded(site: Site) -> bool:
     return False
 
 
+def _numbered_from_id_source(site: Site) -> bool:
+    """the name is built as <constant prefix> + str(temp_id_source[0]) in this function"""
+    for st in ast.walk(site.func.node):
+        if isinstance(st, ast.Assign) and _const_prefix(st.value) == site.pattern and "temp_id_source" in unparse(st.value):
+            return True
+    return False
+
+
+def _sql_numbering_is_fresh(program) -> bool:
+    """generated step names are `<prefix>_<n>` with n from the conversion's id source; they are fresh against the pipeline's tables when
+    SQLModel.to_sql starts that source above every number a table name ends in (the start value depends on ops.get_tables())"""
+    ts = program.method("sql_model", "SQLModel", "to_sql", inherited=False)
+    g = cfgmod.build(ts.node)
+    d = depsmod.Deps(g, ts.params(), control=True)
+    for n in g.stmt_nodes(("stmt",)):
+        st = n.stmt
+        if isinstance(st, ast.Assign) and len(st.targets) == 1 and isinstance(st.targets[0], ast.Subscript) and unparse(st.targets[0].value) == "temp_id_source":
+            roots = d.roots_at(n, st.value) | d.own_guard_roots(n)
+            if "call:get_tables" in roots and any(isinstance(c, ast.Call) and dotted_name(c.func) == "max" for c in ast.walk(st.value)):
+                return True
+    return False
+
+
 def _s1(program, res):
     ex = _executor_sites(program)
     sq = _sql_sites(program)
+    sql_fresh = _sql_numbering_is_fresh(program)
     seen = set()
     n_ex = n_sql = 0
     for s in ex + sq:
@@ -199,6 +225,9 @@ def _s1(program, res):
             n_ex += 1
         if _guarded(s):
             res.ok("C15-S1", f"{s.func.qualname}: internal name {s.pattern!r} ({s.how}) is made fresh against the user's names")
+            continue
+        if s.backend == "sql" and s.pattern.endswith("_<n>") and sql_fresh and _numbered_from_id_source(s):
+            res.ok("C15-S1", f"{s.func.qualname}: step name {s.pattern!r} is numbered from an id source that starts above every number a table name ends in")
             continue
         if s.backend == "sql":
             msg = (f"{s.func.qualname} names a generated query / alias {s.pattern!r} and quotes it as an identifier without checking it against the "
